@@ -513,6 +513,19 @@ func costGuard(w *World, op *Op) string {
 			return "'b' format of a value with a precision above the simulation's cost limit"
 		}
 	}
+	if name == "Mul" || name == "FMA" || name == "Sqrt" {
+		// exact products of enormous operands (a receiver with a precision at the
+		// top of the range that is squared again and again doubles its length each
+		// time): legal, but hundreds of thousands of digits per step
+		total := 0
+		for i := 0; i < 2 && i < len(op.A); i++ {
+			l, _ := decimal.VerifMantCap(w.V[op.A[i]])
+			total += l
+		}
+		if total > 3000 {
+			return "operands of more than 57000 digits: beyond the simulation's cost limit"
+		}
+	}
 	switch name {
 	case "Add", "Sub":
 		e0, ok0 := fin(0)
